@@ -659,12 +659,20 @@ def runHistory (E : Env) (cfg : Cfg) : St → List Call → St × List (List Str
 
 /-! ## `Cleaner.clean_file` (cleaner/__init__.py 163-199): read, clean, replace the WHOLE content -/
 
-/-- `fh.readlines()`: the text cut behind every `'\n'`, terminators kept -/
+/-- `fh.readlines()`: the text cut behind every `'\n'` — and nowhere else (not at `\x0b`, `\x0c`, `\x1c`-`\x1e`, `\x85`,
+U+2028, U+2029) —, terminators kept -/
 def readlinesGo : Str → Str → List Str
   | [], [] => []
   | [], cur => [cur.reverse]
   | c :: cs, cur => if c = '\n' then (c :: cur).reverse :: readlinesGo cs [] else readlinesGo cs (c :: cur)
 def readlines (txt : Str) : List Str := readlinesGo txt []
+
+/-- what `open(path, 'r')` hands to `readlines`: universal-newline translation, `'\r\n'` and a lone `'\r'` become `'\n'` -/
+def universalNewlines : Str → Str
+  | [] => []
+  | '\r' :: '\n' :: cs => '\n' :: universalNewlines cs
+  | '\r' :: cs => '\n' :: universalNewlines cs
+  | c :: cs => c :: universalNewlines cs
 
 /-- a path as `clean_file` sees it: nothing there, a symbolic link (left alone), or a regular file with its text -/
 inductive FileSt
@@ -680,7 +688,7 @@ def cleanFile (E : Env) (cfg : Cfg) (st : St) (call : Call) : FileSt → St × F
   | .absent => (st, .absent)
   | .link => (st, .link)
   | .file txt =>
-    let raw := readlines txt
+    let raw := readlines (universalNewlines txt)
     let r := cleanContent E cfg st { call with lines := raw }
     if raw.isEmpty then (r.1, .file txt)
     else if r.2.isEmpty then (r.1, .absent)
